@@ -40,7 +40,7 @@ func TestMain(m *testing.M) {
 var tokens = []string{
 	"func", "true", "false", "if", "else", "return", "for", "break", "continue", "macro", "quote", "unquote",
 	"len", "first", "rest", "print", "println", "log", "error", "catch", "del",
-	"=", ":=", "+", "-", "!", "*", "/", "%", "<", ">", "&", "|", "^", "~", ",", ";", "(", ")", "{", "}", "[", "]", ":", ".",
+	"9223372036854775808", "=", ":=", "+", "-", "!", "*", "/", "%", "<", ">", "&", "|", "^", "~", ",", ";", "(", ")", "{", "}", "[", "]", ":", ".",
 	"<=", ">=", "==", "!=", "++", "--", "..", "||", "&&", "<<", ">>", "=>",
 	"x", "1", "1.5", `"s"`, "`r`", "// c\n", "/* c */", "\n", "@", `"`, "/*",
 }
@@ -354,7 +354,7 @@ func TestARegress(t *testing.T) { pbt.RunRegress(t, "C08", oracle) }
 // sequences) joined by each separator: parser state that survives from one statement into the next (counters,
 // flags, pending errors) shows when a complete piece cancels or masks the defect of another.
 var fragments = []string{
-	"a = 1", "b = a[1:3]", "c = a[1:]", "a[0]", "a[-1:2][0]", "[2:]", "(1:]", "[true:]", "x = [1:", "[1, 2][1:]", "m = {1:2}", "{1:}", "m[1:2]",
+	"-9223372036854775808", "- -9223372036854775808 + 1", "a = 1", "b = a[1:3]", "c = a[1:]", "a[0]", "a[-1:2][0]", "[2:]", "(1:]", "[true:]", "x = [1:", "[1, 2][1:]", "m = {1:2}", "{1:}", "m[1:2]",
 	"f(x)", "f(", "f(1,", ")", "]", "}", "(", "[", "{", "()", "() =>", "() => 1", "(a, b) => a", "(a, 1) => a", "x =>", "=> 1",
 	"func f() { 1 }", "func f(", "func(a,", "func f() {", "func(..) { .. }", "func(.., a) { a }",
 	"if a { 1 }", "if a { 1 } else { 2 }", "if a {", "else { 1 }", "if { 1 }", "if a { 1 } else", "if a { 1 } else if b { 2 }",
